@@ -2074,6 +2074,12 @@ impl Lexer<'_> {
                     '*' => {
                         self.start_token();
                         self.lex_macro_comment();
+
+                        // Same as for the macro var above: the part of the arg name
+                        // lexed so far is followed by a comment and not WS, so we
+                        // won't need to rollback that far back. And the next part
+                        // of the arg name sets its own checkpoint
+                        self.clear_checkpoint();
                     }
                     c if is_valid_unicode_sas_name_start(c) => {
                         // Either a nested macro stat or macro call
